@@ -1018,6 +1018,16 @@ pub fn sched_specs(prop: &str, tier: &str) -> Vec<HistSpec> {
                 s.o_c04 = true;
                 out.push(s);
             }
+            // two 17 MiB write requests and a small one queued before the worker runs
+            // (one schedule): byte budgets of a batch
+            {
+                let mut s = base_spec(prop, schedx::from_syms(&[Sym::A, Sym::F, Sym::A17m, Sym::F, Sym::A17m, Sym::F, Sym::A, Sym::F, Sym::W, Sym::W, Sym::W, Sym::W]), Cfg::default());
+                s.fixed = true;
+                s.o_c04 = true;
+                s.caller_first_only = true;
+                s.max_executions = 1;
+                out.push(s);
+            }
             // a write request above 1 MiB queued behind a small one (and before one)
             for sh in [vec![Sym::A, Sym::F, Sym::Amega, Sym::F, Sym::W, Sym::W], vec![Sym::Amega, Sym::F, Sym::A, Sym::F, Sym::W, Sym::W]] {
                 let mut s = base_spec(prop, schedx::from_syms(&sh), Cfg::default());
